@@ -215,5 +215,5 @@ def run(ck):
     ck.assumptions += ['sequentially consistent interleavings; data-race freedom is checked per schedule by the TSan variant', 'libc internals are not scheduling points (never contended under the serialising scheduler)']
     ck.coverage(states=len(outs) + stats.get('hashed_states', 0), transitions=total, traces_validated_against_impl=total, evaluations=total, distinct_nontrivial=len(outs),
                 rule='all schedules within the preemption bound per campaign, one process each; distinct = distinct (campaign, record order with thread counts) observed',
-                campaigns=stats.get('campaigns', []), determinism_replays=2, replay_divergences=stats.get('diverged', 0), scheduler_states_in_hashed_passes=stats.get('hashed_states', 0),
+                campaigns=stats.get('campaigns', []), determinism_replays=2, unreproducible_hangs_replayed_ok=len(S.UNREPRODUCIBLE_HANGS), replay_divergences=stats.get('diverged', 0), scheduler_states_in_hashed_passes=stats.get('hashed_states', 0),
                 samples=[{'campaign': c['name'], 'executions': c['executions'], 'bound': c['preemption_bound'], 'complete': c['bound_completed']} for c in stats.get('campaigns', [])][:6] or [{'note': 'none'}])
